@@ -337,7 +337,7 @@ def plan(tier):
     for name in (['rec3', 'mount2', 'nestlog', 'genrec'] if tier == 'quick' else ['rec3', 'mount2', 'chain3', 'nestlog', 'genrec']):
         desc = WORLDS[name]()
         keys = list(desc['tasks'])
-        faults = [(keys[0], 'raise'), (keys[0], 'raise_late'), (keys[-1], 'raise'), (keys[0], 'wrong_type')]
+        faults = [(keys[0], 'raise'), (keys[0], 'raise_late'), (keys[-1], 'raise'), (keys[0], 'wrong_type'), (keys[0], 'interrupt')]
         variants = list(desc['variants'])[:2]
         sp = specs.build(desc, variants=variants, ops=('new', 'value', 'tforce', 'fail'), slots=2 if tier != 'quick' else 1, faults=faults, delete_flags=(False,),
                          max_faults=1 if tier == 'quick' else 2, records=True)
@@ -346,7 +346,7 @@ def plan(tier):
     # focused deeper slice: success, force, failing recomputation, (retry) needs five to six operations on one task
     desc = WORLDS['rec3']()
     sp = specs.build(desc, variants=['v0'], ops=('new', 'value', 'tforce', 'fail'), slots=1, tasks=['a'], delete_flags=(False,), max_faults=1, records=True,
-                     faults=[('A', 'raise'), ('A', 'raise_late'), ('A', 'wrong_type')])
+                     faults=[('A', 'raise'), ('A', 'raise_late'), ('A', 'wrong_type'), ('A', 'interrupt')])
     out.append((desc, sp, 2, 6 if tier == 'quick' else 7))
     return out
 
